@@ -187,6 +187,83 @@ def users_case(kind: str, script: tuple[str, ...], channel: int = 7) -> list[tup
     return viols
 
 
+GONE_HOW = ["user-disconnect", "server-disconnect-request", "peer-closes-tcp"]
+
+
+def gone_case(kind: str, how: str, after: int) -> list[tuple[str, str]]:
+    """'the heartbeat stops quietly once the connection is gone': the connection ends (the user disconnects, the server sends a
+    DisconnectRequest, the peer closes the TCP connection) right after connect or after `after` answered heartbeats; from then on
+    no ConnectionStateRequest, no heartbeat task, and the loss is not declared a second time."""
+    from xknx import XKNX
+    from xknx.io import device_management_connection as dmc
+    from xknx.io import tunnel as tun
+    from xknx.knxip import ConnectionStateRequest, DisconnectRequest
+    from xknx.knxip.knxip_enum import ConnectRequestType
+
+    from ..sim.gateway import GW_ADDR, DefaultPolicy, Gateway
+    from ..vloop import texc
+
+    viols: list[tuple[str, str]] = []
+    tcp = kind.startswith("tcp")
+    dm = "device-management" in kind
+    cls, meth = (dmc._DeviceManagementConnection, "_connection_lost") if dm else (tun._Tunnel, "_tunnel_lost")  # noqa: SLF001
+    orig = getattr(cls, meth)
+    with World() as w:
+        loop = w.loop
+        lost_calls: list[float] = []
+
+        def counted(self: Any, *a: Any, **k: Any) -> Any:
+            lost_calls.append(loop.time())
+            return orig(self, *a, **k)
+
+        setattr(cls, meth, counted)
+        gw = Gateway(loop)
+        gw.handler = DefaultPolicy(gw, tcp=tcp, request_type=ConnectRequestType.DEVICE_MGMT_CONNECTION if dm else ConnectRequestType.TUNNEL_CONNECTION)
+        xknx = XKNX()
+        try:
+            if dm:
+                conn: Any = dmc.TCPDeviceManagementConnection(GW_ADDR[0], GW_ADDR[1]) if tcp else dmc.UDPDeviceManagementConnection(GW_ADDR[0], GW_ADDR[1], local_ip="192.168.1.2")
+            elif tcp:
+                conn = tun.TCPTunnel(xknx, gateway_ip=GW_ADDR[0], gateway_port=GW_ADDR[1], cemi_received_callback=lambda c: None, auto_reconnect=False)
+            else:
+                conn = tun.UDPTunnel(xknx, gateway_ip=GW_ADDR[0], gateway_port=GW_ADDR[1], local_ip="192.168.1.2", local_port=0, route_back=False, cemi_received_callback=lambda c: None, auto_reconnect=False)
+            t0 = w.spawn(conn.connect(), name="harness-connect")
+            loop.settle()
+            if not (t0.done() and texc(t0) is None):
+                return [("harness:connect-failed", repr(t0))]
+            loop.run_until(loop.time() + after * HEARTBEAT_RATE + (1 if after else 0))
+            n_before = sum(1 for _t, b in gw.log if isinstance(b, ConnectionStateRequest))
+            if n_before != after:
+                return [("harness:heartbeat-count", f"{n_before} requests before the event, expected {after}")]
+            t_event = loop.time()
+            chan = conn.communication_channel
+            if how == "user-disconnect":
+                w.spawn(conn.disconnect(), name="harness-disconnect")
+            elif how == "server-disconnect-request":
+                gw.send(DisconnectRequest(chan))
+            else:
+                gw.tr.lose(ConnectionResetError("peer reset"))
+            loop.settle()
+            calls_at_event = len(lost_calls)
+            alive = [t.get_name() for t in loop.live_tasks() if t.get_name().endswith(" heartbeat")]
+            ctxs = f"{kind}: {how} after {after} answered heartbeat(s) at t={t_event}"
+            if alive:
+                viols.append((f"gone:heartbeat-still-running:{how}", f"{ctxs}: task(s) {alive} alive after the connection ended"))
+            loop.run_until(loop.time() + 3 * HEARTBEAT_RATE + 60)
+            later = [round(t, 2) for t, b in gw.log if isinstance(b, ConnectionStateRequest) and t > t_event]
+            if later:
+                viols.append((f"gone:connection-state-request-after-end:{how}", f"{ctxs}: ConnectionStateRequests at {later}"))
+            if len(lost_calls) > max(1, calls_at_event) or (how == "user-disconnect" and lost_calls):
+                viols.append((f"gone:loss-declared-again:{how}", f"{ctxs}: {meth} called at {[round(t, 2) for t in lost_calls]}"))
+            for name, exc in loop.task_failures():
+                if not name.startswith("harness-"):
+                    viols.append((f"task-exception:{type(exc).__name__}", f"{name}: {exc!r}; {ctxs}"))
+        finally:
+            setattr(cls, meth, orig)
+            xknx.started.clear()
+    return viols
+
+
 def user_scripts() -> list[tuple[str, ...]]:
     import itertools
 
@@ -226,6 +303,21 @@ def users_worker(k: int, n: int) -> Any:
             part.outcomes["users:" + ("violating" if viols else "ok")] += 1
             for sig, detail in viols:
                 part.viol(sig, detail, {"scenario": "users", "kind": kind, "script": list(script), "channel": channel}, rank=(len(script), channel != 7, script))
+    for kind in USER_KINDS:
+        for how in GONE_HOW:
+            if how == "peer-closes-tcp" and not kind.startswith("tcp"):
+                continue
+            for after in (0, 1, 2):
+                i += 1
+                if i % n != k:
+                    continue
+                viols = gone_case(kind, how, after)
+                part.evaluations += 1
+                part.traces += 1
+                part.nontrivial += 1
+                part.outcomes["gone:" + ("violating" if viols else "ok")] += 1
+                for sig, detail in viols:
+                    part.viol(sig, detail, {"scenario": "gone", "kind": kind, "how": how, "after": after}, rank=(after, GONE_HOW.index(how)))
     return part
 
 
@@ -236,7 +328,7 @@ def run(ctx: Ctx) -> None:
         f"(complete product, not deviation bounded) and every sequence of length {depth - 1} that also contains stop()/start() during a request; reference automaton "
         "(70 s period, immediate repeats, on_failure once after 4 consecutive failures or a raise, None/stop ends quietly) stepped in lock-step; "
         "plus the heartbeat as its users run it - real UDP/TCP tunnel and UDP/TCP device management connection against a simulated gateway answering the ConnectionStateRequests from a script: ALL scripts of "
-        "length <= 5 over {ok, silent, E_CONNECTION_ID} and 6 patterns for EVERY other status code (4 in a row, as 4th failure, reset by ok, ...): lost exactly after four consecutive failed requests, whatever the status and whatever channel id (7, 0, 255) the server assigned. "
+        "length <= 5 over {ok, silent, E_CONNECTION_ID} and 6 patterns for EVERY other status code (4 in a row, as 4th failure, reset by ok, ...): lost exactly after four consecutive failed requests, whatever the status and whatever channel id (7, 0, 255) the server assigned; and for each of the four users the connection ending (user disconnect, server DisconnectRequest, peer closing the TCP connection) right after connect or after 1-2 answered heartbeats: no heartbeat task and no ConnectionStateRequest afterwards, the loss not declared a second time. "
         "non-trivial = schedule with at least one non-ok outcome"
     )
     ctx.bounds = {"outcome_sequences_length": depth + 1, "with_start_stop_length": depth - 1}
@@ -248,6 +340,8 @@ def run(ctx: Ctx) -> None:
 
 
 def replay(case: Any) -> list[tuple[str, str]]:
+    if case.get("scenario") == "gone":
+        return gone_case(case["kind"], case["how"], case["after"])
     if case.get("scenario") == "users":
         return users_case(case["kind"], tuple(case["script"]), case.get("channel", 7))
     return replay_schedule(__name__, case)
